@@ -846,7 +846,7 @@ def queries(t):
     q = []
     # sums are compared only when they are exact in binary64 (after norm the values are not dyadic, and CSR and
     # CSC add them in different orders: rounding, not representation dependence)
-    exact = all(Fraction(float(x)).denominator <= 2 ** 20 for x in t.matrix_data.data)
+    exact = all(abs(float(x)) < 2.0 ** 40 and Fraction(float(x)).denominator <= 2 ** 20 for x in t.matrix_data.data)
     obs = [str(x) for x in t.ids(axis="observation")]
     samp = [str(x) for x in t.ids()]
     q.append(("shape", json.dumps([int(x) for x in t.shape])))
@@ -1830,6 +1830,82 @@ def run(ctx):
                                 [], "equal", qorder="o" if axis == "observation" else "s"), ("wide", "inplace"))
         run_pair(ctx, pair_case(spec, alias_route("dense", "sort_order", "rename_ids"), spec, "sort_roundtrip",
                                 gen_steps(rng, 1), "equal"), ("wide", "alias"))
+
+    # 4h. less travelled inputs: canonically equivalent spellings (NFC / NFD) as DISTINCT IDs on one axis, texts with
+    #     '%', quotes, U+2028/2029/0085, form feed ...; the same names on both axes; partially annotated axes;
+    #     denormals, integers above 2**24 and arbitrary bit patterns as values (a difference of one ulp must show)
+    import math
+    for k in range(60 if quick else 900):
+        n, m = rng.randint(2, 4), rng.randint(2, 4)
+        pool = core.twin_ids(rng, 2) + rng.sample(core.NASTY_TEXTS, 4)
+        rng.shuffle(pool)
+        obs = pool[:n]
+        samp = (pool[:m] if k % 3 == 0 else [x for x in pool[::-1]][:m])      # names shared across both axes
+        classes = [VALUE_CLASSES, ("big", "tiny"), ("bits",)][k % 3]
+        spec = {"obs": obs, "samp": samp, "rows": core.gen_grid(rng, n, m, rng.choice([0.5, 0.8, 1.0]), classes),
+                "omd": None, "smd": None, "type": rng.choice(core.TYPES)}
+        if k % 2 == 0:
+            # partially annotated: some IDs carry an entry, others an empty one / None
+            spec["omd"] = [({"grp": "g%d" % i, "note": core.NASTY_TEXTS[(k + i) % len(core.NASTY_TEXTS)]} if i % 2 == 0 else {})
+                           for i in range(n)]
+        ra = rng.choice(["dense", "csr_unsorted", "csc", "lol_coo_zeros", "ids_object_dtype", "ids_wide_dtype"])
+        rb = rng.choice(["dense", "csr_zeros", "copy", "sort_roundtrip", "md_none_form" if spec["omd"] is None else "coo"])
+        ctx.count("text-ids/value-class=%s" % "+".join(classes))
+        run_pair(ctx, pair_case(spec, ra, spec, rb, gen_steps(rng, rng.choice([0, 1, 2])), "equal", exports=(k % 6 == 0)),
+                 ("less-travelled",))
+        other = copy.deepcopy(spec)
+        kind = ["normalisation", "value_ulp", "swap_twins", "partial_md"][k % 4]
+        if kind == "normalisation":
+            # one ID replaced by the other spelling of the same text (still distinct from every ID present)
+            done = False
+            for ax in ("obs", "samp"):
+                for a_, b_ in core.NORMALISATION_PAIRS:
+                    for x, y in ((a_, b_), (b_, a_)):
+                        if not done and x in other[ax] and y not in other[ax]:
+                            other[ax][other[ax].index(x)] = y
+                            done = True
+            if not done:
+                other["obs"][0] = other["obs"][0] + "\u0301"
+        elif kind == "value_ulp":
+            cells = [(i, j) for i in range(n) for j in range(m) if spec["rows"][i][j] != 0]
+            if not cells:
+                continue
+            i, j = rng.choice(cells)
+            v = spec["rows"][i][j]
+            other["rows"][i][j] = math.nextafter(v, math.inf if k % 8 < 4 else -math.inf)
+            if not math.isfinite(other["rows"][i][j]) or other["rows"][i][j] == 0:
+                other["rows"][i][j] = math.nextafter(v, 0.0) or v * 2
+            if abs(v) >= 2.0 ** 24 and float(v).is_integer() and abs(v) < 2.0 ** 52:
+                other["rows"][i][j] = v + 1.0
+        elif kind == "swap_twins":
+            i, j = 0, 1
+            other["obs"][i], other["obs"][j] = other["obs"][j], other["obs"][i]
+        else:
+            if spec["omd"] is None:
+                other["omd"] = [({"grp": "g"} if i == n - 1 else {}) for i in range(n)]
+            else:
+                other["omd"][1] = {"grp": "late"}
+        ctx.count("less-travelled-difference=" + kind)
+        if k % 2:
+            run_pair(ctx, pair_case(spec, ra, other, rb, [], "differs"), ("less-travelled", kind))
+        else:
+            run_pair(ctx, pair_case(other, rb, spec, ra, [], "differs"), ("less-travelled", kind))
+    # one table with more than 512 IDs on an axis
+    for k in range(1 if quick else 4):
+        axis = ["sample", "observation"][(k + ctx.seed) % 2]
+        spec = core.wide_spec(rng, n_axis=rng.choice([520, 600]), other=2, axis=axis, classes=VALUE_CLASSES)
+        spec["rows"][-1][-1] = spec["rows"][-1][-1] or 1.0
+        c = pair_case(spec, "csr_unsorted", spec, "dense", [[0, "data_samp"]], "equal", qorder="c")
+        c["sweep"] = False
+        run_pair(ctx, c, ("wide", "above-512"))
+        cell = copy.deepcopy(spec)
+        cell["rows"][-1][-1] += 1.0
+        c = pair_case(cell, "csc", spec, "csr_unsorted", [], "differs", qorder="o" if axis == "sample" else "s")
+        run_pair(ctx, c, ("wide", "above-512", "last_cell"))
+        c = pair_case(spec, ident_route("dense", "filter_list_rev", axis, False, k), spec, "csr", [], "equal",
+                      qorder="o" if axis == "sample" else "s")
+        c["sweep"] = False
+        run_pair(ctx, c, ("wide", "above-512", "identity"))
 
     # 4c. one extra metadata key on one ID, compared both ways round (smaller table on the left and on the right),
     #     built by construction and by add_metadata
